@@ -14,6 +14,7 @@ import Poulpy.Props.C08
 import Poulpy.Lemmas.MulTensor
 import Poulpy.Lemmas.EpNorm
 import Poulpy.Lemmas.GadgetCore
+import Poulpy.Lemmas.ValBridge
 
 /-!
 # C04 — external products and CMux multiply by the EpGGSW plaintext within noise
@@ -750,4 +751,99 @@ example (s : List Poly) :
             = some [[0], [0], [0], [0]] := by decide
         have hC' := e.symm.trans hC; injection hC' with hC'; subst hC'; decide) s
 
+/-! ## Composed statement: the result ciphertext decrypts to `m2 · phase(a)` plus explicit terms, one value domain -/
+
+/-- **`ep_decrypts`** — `glwe_external_product` (every `dsize ≥ 1`, every rank, same or different radices), `ep_executed_identity` and
+`ep_result_phase_modulo_norm` composed in `R N = ℤ[X]/(X^N+1)` with `β = 2^{base2k(ggsw)}` (`Lemmas/ValBridge.lean`): `A · phase(result)` equals
+`B · (m2·Σ_i σ_i·usedVal(a_i) + Σ_i(Σ_r digit·E − dropped − β^S·head))` plus the normalisation error `E₀ + Σ s_i E_{i+1}`, where `(A, B, En)` is the
+C08 kernel's value relation on each accumulator column (`hK`; `ep_result_coeff_same_radix` gives it outright per coefficient for equal radices).
+Each cell of GGSW × GGLWE / GGSW × GGSW is this statement. -/
+theorem ep_decrypts {N : Nat} (big128 : Bool) (rb rs ab : Nat) (a aConv res : List Col) (g : EpGGSW) (sk : List Poly)
+    (hg : (g.n == N && g.wf && shapeOk N (g.rank + 1) (a.getD 0 []).length a) = true)
+    (hc : epConvert N a ab g = some aConv)
+    (hok : glweExternalProduct big128 N rb rs a ab g = .ok res)
+    (A B : Int) (En : Nat → Poly) (hEn : ∀ i, (En i).length = N)
+    (hwf : ∀ c ∈ epInternal aConv g (zeroCols N (g.rank + 1) g.size) (zeroCols N (g.rank + 1) g.size), C02L.ColWF N g.size c)
+    (hres : C02L.GWF N (Ks.mkCt rb N res))
+    (hK : ∀ i, i ≤ g.rank → ∀ C,
+      epBigNormalize big128 N rb rs ((epInternal aConv g (zeroCols N (g.rank + 1) g.size) (zeroCols N (g.rank + 1) g.size)).getD i []) g.base2k
+        = some C →
+      polyScale A (C02L.valP rb N C) = polyAdd (polyScale B (C02L.valP g.base2k N
+        ((epInternal aConv g (zeroCols N (g.rank + 1) g.size) (zeroCols N (g.rank + 1) g.size)).getD i []))) (En i))
+    (m2 : Ks.R N) (σ : ℕ → Ks.R N) (E : ℕ → ℕ → Ks.R N)
+    (hd : 1 ≤ g.dsize) (hN : 0 < N) (hn : g.n = N)
+    (haC : shapeOk g.n (g.rank + 1) (aConv.getD 0 []).length aConv = true)
+    (hM : ∀ j q, (g.toPMat.entry j q).length = N) (hS : g.dnum * g.dsize ≤ g.size)
+    (hkey : ∀ i, i < g.rank + 1 → ∀ r, r < g.dnum →
+      Gadget.val ((2 : Ks.R N) ^ g.base2k) g.size (Ks.keyPhase N sk g.toPMat i r)
+        = m2 * σ i * ((2 : Ks.R N) ^ g.base2k) ^ (g.size - (r + 1) * g.dsize) + E i r) :
+    (A : Ks.R N) * Ks.ι N (C02L.valP rb N (Core.Ops.phase sk (Ks.mkCt rb N res)))
+      = (B : Ks.R N) * (m2 * ∑ i ∈ Finset.range (g.rank + 1),
+            σ i * Gadget.usedVal ((2 : Ks.R N) ^ g.base2k) g.size g.dsize g.dnum (aConv.getD 0 []).length
+              (Ks.inLimb N (mkBuf g.n (g.rank + 1) (aConv.getD 0 []).length aConv) i)
+        + ∑ i ∈ Finset.range (g.rank + 1),
+            (∑ r ∈ Finset.range g.dnum,
+                Gadget.digit ((2 : Ks.R N) ^ g.base2k) g.dsize g.dnum (aConv.getD 0 []).length
+                  (Ks.inLimb N (mkBuf g.n (g.rank + 1) (aConv.getD 0 []).length aConv) i) r * E i r
+              - Gadget.dropped ((2 : Ks.R N) ^ g.base2k) g.size g.dsize g.dnum (aConv.getD 0 []).length
+                  (Ks.inLimb N (mkBuf g.n (g.rank + 1) (aConv.getD 0 []).length aConv) i) (Ks.keyPhase N sk g.toPMat i)
+              - ((2 : Ks.R N) ^ g.base2k) ^ g.size * Gadget.head ((2 : Ks.R N) ^ g.base2k) g.dsize g.dnum (aConv.getD 0 []).length
+                  (Ks.inLimb N (mkBuf g.n (g.rank + 1) (aConv.getD 0 []).length aConv) i) (Ks.keyPhase N sk g.toPMat i)))
+        + Ks.ι N (C02L.errTo (min g.rank sk.length) sk En) := by
+  have hlen := epInternal_length aConv g (zeroCols N (g.rank + 1) g.size) (zeroCols N (g.rank + 1) g.size)
+  have hne : epInternal aConv g (zeroCols N (g.rank + 1) g.size) (zeroCols N (g.rank + 1) g.size) ≠ [] := by
+    intro h
+    rw [h] at hlen
+    simp at hlen
+  have hbig : C02L.GWF N (Ks.mkCt g.base2k N (epInternal aConv g (zeroCols N (g.rank + 1) g.size) (zeroCols N (g.rank + 1) g.size))) := by
+    refine ⟨rfl, hne, ?_⟩
+    intro c hcm
+    have e : (Ks.mkCt g.base2k N (epInternal aConv g (zeroCols N (g.rank + 1) g.size) (zeroCols N (g.rank + 1) g.size))).size = g.size := by
+      show ((epInternal aConv g (zeroCols N (g.rank + 1) g.size) (zeroCols N (g.rank + 1) g.size)).getD 0 []).length = g.size
+      have h0 : 0 < (epInternal aConv g (zeroCols N (g.rank + 1) g.size) (zeroCols N (g.rank + 1) g.size)).length := by rw [hlen]; omega
+      rw [List.getD_eq_getElem?_getD, List.getElem?_eq_getElem h0]
+      exact (hwf _ (List.getElem_mem h0)).1
+    rw [e]
+    exact hwf c hcm
+  have h1 := ep_result_phase_modulo_norm big128 rb rs ab a aConv res g hg hc hok A B En hEn hbig hres hK sk
+  have h2 := phase_norm_compose N hN rb g.base2k g.size sk res _ hne hwf A B _ (C02L.errTo_length _ sk En hEn) h1
+  have hz : shapeOk g.n (g.rank + 1) g.size (zeroCols N (g.rank + 1) g.size) = true := by
+    rw [hn]; unfold shapeOk zeroCols; simp [Hal.zeroP]
+  have h3 := ep_executed_identity N sk aConv g (zeroCols N (g.rank + 1) g.size) (zeroCols N (g.rank + 1) g.size) ((2 : Ks.R N) ^ g.base2k) m2 σ E
+    hd hN hn haC hz hz hM hS hkey
+  rw [h2, h3]
+
+example (m2 : Ks.R 1) (σ : ℕ → Ks.R 1) :
+    ((1 : Int) : Ks.R 1) * Ks.ι 1 (C02L.valP 4 1 (Core.Ops.phase [[1]] (Ks.mkCt 4 1 [[[3], [0], [0], [0]], [[0], [0], [0], [0]]])))
+      = ((1 : Int) : Ks.R 1) * (m2 * ∑ i ∈ Finset.range (staleG.rank + 1),
+            σ i * Gadget.usedVal ((2 : Ks.R 1) ^ staleG.base2k) staleG.size staleG.dsize staleG.dnum (([[[1], [2], [3]], [[0], [1], [0]]] : List Col).getD 0 []).length
+              (Ks.inLimb 1 (mkBuf staleG.n (staleG.rank + 1) (([[[1], [2], [3]], [[0], [1], [0]]] : List Col).getD 0 []).length [[[1], [2], [3]], [[0], [1], [0]]]) i)
+        + ∑ i ∈ Finset.range (staleG.rank + 1),
+            (∑ r ∈ Finset.range staleG.dnum,
+                Gadget.digit ((2 : Ks.R 1) ^ staleG.base2k) staleG.dsize staleG.dnum (([[[1], [2], [3]], [[0], [1], [0]]] : List Col).getD 0 []).length
+                  (Ks.inLimb 1 (mkBuf staleG.n (staleG.rank + 1) (([[[1], [2], [3]], [[0], [1], [0]]] : List Col).getD 0 []).length [[[1], [2], [3]], [[0], [1], [0]]]) i) r *
+                  (Gadget.val ((2 : Ks.R 1) ^ staleG.base2k) staleG.size (Ks.keyPhase 1 [[1]] staleG.toPMat i r)
+                    - m2 * σ i * ((2 : Ks.R 1) ^ staleG.base2k) ^ (staleG.size - (r + 1) * staleG.dsize))
+              - Gadget.dropped ((2 : Ks.R 1) ^ staleG.base2k) staleG.size staleG.dsize staleG.dnum (([[[1], [2], [3]], [[0], [1], [0]]] : List Col).getD 0 []).length
+                  (Ks.inLimb 1 (mkBuf staleG.n (staleG.rank + 1) (([[[1], [2], [3]], [[0], [1], [0]]] : List Col).getD 0 []).length [[[1], [2], [3]], [[0], [1], [0]]]) i) (Ks.keyPhase 1 [[1]] staleG.toPMat i)
+              - ((2 : Ks.R 1) ^ staleG.base2k) ^ staleG.size * Gadget.head ((2 : Ks.R 1) ^ staleG.base2k) staleG.dsize staleG.dnum (([[[1], [2], [3]], [[0], [1], [0]]] : List Col).getD 0 []).length
+                  (Ks.inLimb 1 (mkBuf staleG.n (staleG.rank + 1) (([[[1], [2], [3]], [[0], [1], [0]]] : List Col).getD 0 []).length [[[1], [2], [3]], [[0], [1], [0]]]) i) (Ks.keyPhase 1 [[1]] staleG.toPMat i)))
+        + Ks.ι 1 (C02L.errTo (min staleG.rank ([[1]] : List Poly).length) [[1]] (fun _ => [0])) :=
+  ep_decrypts (N := 1) false 4 4 4 [[[1], [2], [3]], [[0], [1], [0]]] [[[1], [2], [3]], [[0], [1], [0]]]
+    [[[3], [0], [0], [0]], [[0], [0], [0], [0]]] staleG [[1]] (by decide) (by decide) (by decide) 1 1 (fun _ => [0]) (fun _ => rfl)
+    (by decide) (by decide)
+    (by
+      intro i hi C hC
+      have hi' : i = 0 ∨ i = 1 := by have : i ≤ 1 := hi; omega
+      rcases hi' with rfl | rfl
+      · have e : epBigNormalize false 1 4 4 ((epInternal [[[1], [2], [3]], [[0], [1], [0]]] staleG (zeroCols 1 2 4) (zeroCols 1 2 4)).getD 0 []) 4
+            = some [[3], [0], [0], [0]] := by decide
+        have hC' := e.symm.trans hC; injection hC' with hC'; subst hC'; decide
+      · have e : epBigNormalize false 1 4 4 ((epInternal [[[1], [2], [3]], [[0], [1], [0]]] staleG (zeroCols 1 2 4) (zeroCols 1 2 4)).getD 1 []) 4
+            = some [[0], [0], [0], [0]] := by decide
+        have hC' := e.symm.trans hC; injection hC' with hC'; subst hC'; decide)
+    m2 σ (fun i r => Gadget.val ((2 : Ks.R 1) ^ staleG.base2k) staleG.size (Ks.keyPhase 1 [[1]] staleG.toPMat i r)
+                    - m2 * σ i * ((2 : Ks.R 1) ^ staleG.base2k) ^ (staleG.size - (r + 1) * staleG.dsize))
+    (by decide) (by decide) rfl (by decide) (Ks.entry_length staleG.toPMat 1 rfl (by decide)) (by decide)
+    (by intro i _ r _; exact (add_sub_cancel _ _).symm)
 end C04
